@@ -149,7 +149,9 @@ class AsyncIOThreadSafeScheduler(AsyncIOScheduler):
         try:
             current_loop = asyncio.get_running_loop()
         except RuntimeError:
-            # If no running event loop is found, assume we're in a different thread
-            return True
+            # If no running event loop is found, we're in a different thread
+            # than the (running) loop: the cancellation must be handed over
+            # to the loop.
+            return False
 
         return self._loop == current_loop
